@@ -212,6 +212,19 @@ T.fns = [function() { return ++T.calls; }, {f: function() { return T.calls += 10
 T.proto = {pc: 0, inc: function() { return ++this.pc; }};
 T.child = Object.create(T.proto);
 T.alias = (function(a) { T.rd = function() { return a; }; return arguments; })(1);
+// accessor SHAPES: {get only, set only, get+set, both undefined} on an object
+// literal, through defineProperty, on a prototype, on an array index, on the
+// global object and on a function; every setter counts in T.audit
+T.audit = [];
+T.shapes = {get ro() { return T.audit.length; }, set wo(v) { T.audit.push("lit" + v); }, get rw() { return T.audit.length; }, set rw(v) { T.audit.push("rw" + v); }};
+Object.defineProperty(T.shapes, "dwo", {set: function(v) { T.audit.push("dp" + v); }, configurable: true});
+Object.defineProperty(T.shapes, "dro", {get: function() { return "dro" + T.audit.length; }, configurable: true});
+Object.defineProperty(T.shapes, "none", {get: undefined, set: undefined, configurable: true});
+T.sproto = {}; Object.defineProperty(T.sproto, "pwo", {set: function(v) { T.audit.push("proto" + v); }});
+T.schild = Object.create(T.sproto);
+T.sarr = [0]; Object.defineProperty(T.sarr, "1", {set: function(v) { T.audit.push("idx" + v); }, configurable: true});
+Object.defineProperty(this, "gwo", {set: function(v) { T.audit.push("glob" + v); }, configurable: true});
+Object.defineProperty(T.add, "fwo", {set: function(v) { T.audit.push("fn" + v); }});
 // helpers of the frames observation (FramesSrc): the stack of an error thrown
 // through a native function object tells WHICH runtime's call chain built it
 T.getCaller = function g() { return g.caller; };
@@ -229,6 +242,8 @@ log(T.arr.join(), T.acc, T.bound(T.args[0]++), T.obj.n.deep[0], T.d.getTime(), T
 log(T.cat("<" + TID + ">"), T.cat4(TID, "!"), T.cat1(TID), T.pushb(TID), T.bobj(TID), T.seen, "gone" in T.obj);
 if (BRF) { T.made = gmk(); Object.getPrototypeOf(T.made).leak = "copy" + TID; }
 log("bridge", BRF && Object.getPrototypeOf(T.made) === Array.prototype, BRF && T.made instanceof Array, BRF && T.made.join(), BRF && gff()(), gslice.length, BRS && (gslice.length = TID, gslice.length), gslice[0], gmap.a + gmap.b, gstruct.N + gstruct.Twice(), garray[1], gconv(TID), gcb(function(x) { return x + TID; }), "/bridge");
+T.shapes.wo = TID; T.shapes.rw = TID; T.shapes.dwo = TID; T.shapes.none = TID; T.schild.pwo = TID; T.sarr[1] = TID; gwo = TID; T.add.fwo = TID;
+log("accessors", T.audit.join(), T.shapes.ro, T.shapes.rw, T.shapes.dro, T.shapes.none, T.shapes.wo, T.sarr.length);
 T.where = "copy" + TID; T.gs = TID; T.alias[0] += TID;
 log(T.fact(3), T.same(), T.calls, T.ev(), T.cth(), T.wth(), T.gs, T.fns[0](), T.fns[1].f(), T.child.inc(), T.proto.pc, T.rd());
 `
